@@ -182,6 +182,70 @@ def run(ctx):
             cap_no = lin(term_of_def(pn, T, base[0], cap_local), None)
         if len(srch) == 1 and cap_no is not None:
             cap_search = lin(term_of_def(pn, T, srch[0], cap_local), cap_no)
+        if cap_no is None or cap_search is None:
+            # second way: evaluate the capacity expression once under `search_path == None` and once under `Some`, whatever locals it is
+            # spread over (e.g. `let dir_room = match search_path { Some(p) => 1 + longest(p), None => 0 }; cmd.len() + 1 + dir_room`)
+            is_sp = lambda t: M.peel(M.strip(t)) == spp or M.peel(t) == spp
+            some_all = variant_edges(pn, T, is_sp, 1, [0, 1], "std::option::Option<")
+            none_all = variant_edges(pn, T, is_sp, 0, [0, 1], "std::option::Option<")
+
+            def longest_dir(t):
+                """max over split_path(search_path) of len(dir): .map(len).max().unwrap_or(0) or .fold(0, |m, d| m.max(d.len()))"""
+                t = M.noref(t)
+                def from_split(x):
+                    x = M.noref(x)
+                    return x[0] == "call" and x[1] == "posix::split_path" and (M.peel(M.strip(x[2][0])) == spp or M.contains(x[2][0], lambda u: u[0] == "downcast" and u[2] == "Some" and is_sp(u[1])))
+                if t[0] == "call" and t[1] == "std::option::Option::<T>::unwrap_or" and const_of(t[2][1]) == 0:
+                    m = t[2][0]
+                    return m[0] == "call" and m[1] == "std::iter::Iterator::max" and m[2][0][0] == "call" and m[2][0][1] == "std::iter::Iterator::map" \
+                        and m[2][0][2][1] == ("fnitem", "std::ffi::OsStr::len") and from_split(m[2][0][2][0])
+                if t[0] == "call" and t[1] == "std::iter::Iterator::fold" and len(t[2]) == 3 and const_of(t[2][1]) == 0 and from_split(t[2][0]):
+                    cl = t[2][2]
+                    if cl[0] == "agg" and cl[1][0] == "closure" and cl[1][1] in prog.fns:
+                        cf = prog.fns[cl[1][1]]
+                        r_ = M.noref(M.Terms(cf).local(0))
+                        accp, dirp = ("param", 2, cf.local_name(2)), ("param", 3, cf.local_name(3))
+                        if r_[0] == "call" and r_[1] in ("std::cmp::Ord::max", "std::cmp::max", "core::cmp::max") and len(r_[2]) == 2:
+                            xs = [M.noref(x) for x in r_[2]]
+                            isacc = lambda x: x == accp
+                            islen = lambda x: x[0] == "call" and x[1] in ("std::ffi::OsStr::len",) and M.peel(x[2][0]) == dirp
+                            return (isacc(xs[0]) and islen(xs[1])) or (isacc(xs[1]) and islen(xs[0]))
+                return False
+
+            def lin2(t, depth=0):
+                t = M.noref(t)
+                if depth > 12:
+                    return None
+                if t[0] == "field" and t[2] == "0" and t[1][0] == "bin":
+                    t = t[1]
+                c = const_of(t)
+                if c is not None:
+                    return {"c": c}
+                if t[0] == "bin" and t[1] in ("Add", "AddWithOverflow"):
+                    a, b = lin2(t[2], depth + 1), lin2(t[3], depth + 1)
+                    if a is None or b is None:
+                        return None
+                    return {k: a.get(k, 0) + b.get(k, 0) for k in set(a) | set(b)}
+                if t[0] == "call" and t[1] in ("std::ffi::OsStr::len", "std::ffi::OsString::len") and M.peel(M.strip(t[2][0])) == cmdp:
+                    return {"L": 1}
+                if longest_dir(t):
+                    return {"M": 1}
+                if t[0] == "phi":
+                    forms = [lin2(a_, depth + 1) for a_ in t[1]]
+                    if any(f is None for f in forms):
+                        return None
+                    keys = set().union(*forms)
+                    return {k: min(f.get(k, 0) for f in forms) for k in keys}       # a lower bound over the alternatives
+                return None
+            if some_all and none_all:
+                r_none = pn.reachable(0, removed_edges=set(some_all))
+                r_some = pn.reachable(0, removed_edges=set(none_all))
+                arg = wc[0][1]["args"][0]
+                if cap_no is None:
+                    cap_no = lin2(M.Terms(pn, blocks=r_none).operand(arg))
+                if cap_search is None:
+                    cap_search = lin2(M.Terms(pn, blocks=r_some).operand(arg))
+                some_e = some_e or some_all
         need_no = {"L": 1, "c": 1}
         need_s = {"L": 1, "M": 1, "c": 2}
         ge = lambda have, need: have is not None and all(have.get(k, 0) >= v for k, v in need.items())
